@@ -1,0 +1,28 @@
+//go:build verif
+// +build verif
+
+package bitmap
+
+// Exported views of unexported helpers, compiled only with the build tag
+// "verif" (verification harness). Add-only: nothing here is referenced by the
+// library itself.
+
+// VerifSelect32Single exposes select32single.
+func VerifSelect32Single(words []uint64, selectIndex []int32, i int32) int32 {
+	return select32single(words, selectIndex, i)
+}
+
+// VerifIndexSelectU64 exposes indexSelectU64.
+func VerifIndexSelectU64(w uint64) uint64 {
+	return indexSelectU64(w)
+}
+
+// VerifSelectU64Indexed exposes selectU64Indexed.
+func VerifSelectU64Indexed(w uint64, index uint64, findIth uint64) (int32, int) {
+	return selectU64Indexed(w, index, findIth)
+}
+
+// VerifSelect8Lookup returns a copy of the select8Lookup table.
+func VerifSelect8Lookup() []uint8 {
+	return append([]uint8(nil), select8Lookup[:]...)
+}
